@@ -1,5 +1,6 @@
 import Anything.Lemmas.C06Defs
 import Anything.Lemmas.Number
+import Anything.Props.C12
 /-!
 # C06, stage C — the token list of a rendered expression
 
@@ -109,7 +110,7 @@ def queryToks (e : NExpr) (ws : Layout) : List Token :=
 theorem render_lit (l : Literal) (ws : Layout) :
     render (.lit l) ws = if l.percent then (renderNumber l ++ blank1 ws ++ ['%'], rest1 ws)
       else (renderNumber l, ws) := by
-  simp only [Arith.render]; rfl
+  simp only [Arith.render]
 
 theorem render_bin (op : BinOp) (a b : NExpr) (ws : Layout) :
     render (.bin op a b) ws =
@@ -140,5 +141,716 @@ theorem renderArgs_cons (e e' : NExpr) (es : List NExpr) (ws : Layout) :
         (renderArgs (e' :: es) (rest1 (rest1 (after e ws)))).1,
         afterArgs (e' :: es) (rest1 (rest1 (after e ws)))) := by
   simp only [renderArgs]
+
+/-! ### The extent of a number token -/
+
+/-- The input ends here or continues with a character that cannot continue a number. -/
+def NumStop (rest : List Char) : Prop :=
+  ∀ c r, rest = c :: r → isDigit c = false ∧ c ≠ '.' ∧ c ≠ 'e' ∧ c ≠ 'E'
+
+theorem digitChar_isDigit {d : Nat} (h : d < 10) : isDigit (digitChar d) = true :=
+  (digitChar_facts ⟨d, h⟩).1
+
+theorem cn_stop (dot : Bool) (rest : List Char) (h : NumStop rest) : countNumber dot rest = 0 := by
+  cases rest with
+  | nil => rw [countNumber]
+  | cons c r =>
+    obtain ⟨h1, h2, h3, h4⟩ := h c r rfl
+    rw [countNumber.eq_def]
+    simp [h1, h2, h3, h4]
+
+theorem cn_digits (ds : List Nat) (hd : ∀ d ∈ ds, d < 10) (dot : Bool) (rest : List Char) :
+    countNumber dot (ds.map digitChar ++ rest) = ds.length + countNumber dot rest := by
+  induction ds with
+  | nil => simp
+  | cons d ds ih =>
+    have h1 := digitChar_isDigit (hd d (by simp))
+    simp only [List.map_cons, List.cons_append, List.length_cons]
+    rw [countNumber.eq_def]
+    simp only [h1, ↓reduceIte]
+    rw [ih (fun x hx => hd x (by simp [hx]))]
+    omega
+
+theorem cw_digits (ds : List Nat) (hd : ∀ d ∈ ds, d < 10) (rest : List Char) (h : NumStop rest) :
+    countWhile isDigit (ds.map digitChar ++ rest) = ds.length := by
+  induction ds with
+  | nil =>
+    cases rest with
+    | nil => rfl
+    | cons c r => simp [countWhile, (h c r rfl).1]
+  | cons d ds ih =>
+    have h1 := digitChar_isDigit (hd d (by simp))
+    simp only [List.map_cons, List.cons_append, List.length_cons, countWhile, h1, ↓reduceIte]
+    rw [ih (fun x hx => hd x (by simp [hx]))]
+    omega
+
+theorem drop_map_append (ds : List Nat) (rest : List Char) :
+    (ds.map digitChar ++ rest).drop ds.length = rest := by
+  have : ds.length = (ds.map digitChar).length := by simp
+  rw [this, List.drop_left]
+
+theorem cn_exp (dot : Bool) (exp : Option Exponent) (rest : List Char)
+    (hwf : ∀ e, exp = some e → e.WF) (h : NumStop rest) :
+    countNumber dot (renderExp exp ++ rest) = (renderExp exp).length := by
+  cases exp with
+  | none => simpa [renderExp] using cn_stop dot rest h
+  | some e =>
+    obtain ⟨hne, hd⟩ := hwf e rfl
+    have hm : ∀ m : Char, (m = 'e' ∨ m = 'E') →
+        isDigit m = false ∧ (m == '.') = false ∧ (m == 'e' || m == 'E') = true := by
+      intro m hm; rcases hm with rfl | rfl <;> decide
+    obtain ⟨c1, c2, c3⟩ := hm (if e.upper then 'E' else 'e') (by cases e.upper <;> simp)
+    simp only [renderExp, List.singleton_append, List.append_assoc, List.cons_append,
+      List.length_cons, List.length_append, List.length_map]
+    rw [countNumber.eq_def]
+    simp only [c1, c2, c3, Bool.false_eq_true, ↓reduceIte, Bool.false_and]
+    cases hs : e.sign with
+    | some sg =>
+      have hsg : ∃ b, renderSign (some sg) = [b] ∧ isSign b = true := by
+        cases sg <;> exact ⟨_, rfl, by decide⟩
+      obtain ⟨b, hb, hbs⟩ := hsg
+      simp only [hb, List.singleton_append, List.length_singleton, List.nil_append,
+        List.cons_append, List.length_nil, List.length_cons, hbs, ↓reduceIte,
+        cw_digits e.digits hd rest h, drop_map_append, cn_stop dot rest h]
+      omega
+    | none =>
+      cases hds : e.digits with
+      | nil => exact absurd hds hne
+      | cons d ds =>
+        have hd' : ∀ x ∈ ds, x < 10 := fun x hx => hd x (by simp [hds, hx])
+        have hd10 : d < 10 := hd d (by simp [hds])
+        obtain ⟨f1, _, _, _, _, _, f7, f8⟩ := digitChar_facts ⟨d, hd10⟩
+        have hns : isSign (digitChar d) = false := by
+          simp only [isSign, Bool.or_eq_false_iff]; exact ⟨f7, f8⟩
+        simp only [renderSign, List.nil_append, List.map_cons, List.cons_append, hns, f1,
+          Bool.false_eq_true, ↓reduceIte, cw_digits ds hd' rest h, drop_map_append,
+          cn_stop dot rest h, List.length_nil, List.length_cons]
+        omega
+
+/-- The mantissa and exponent (everything but the sign) of a literal. -/
+def body (l : Literal) : List Char := l.int.map digitChar ++ (renderFrac l.frac ++ renderExp l.exp)
+
+theorem renderNumber_eq (l : Literal) : renderNumber l = renderSign l.sign ++ body l := rfl
+
+theorem lit_exp_wf {l : Literal} (h : l.WF) : ∀ e, l.exp = some e → e.WF := by
+  intro e he
+  have := h.2.2.2
+  rw [he] at this
+  exact this
+
+theorem cn_fracexp (l : Literal) (h : l.WF) (rest : List Char) (hr : NumStop rest) :
+    countNumber false (renderFrac l.frac ++ renderExp l.exp ++ rest) =
+      (renderFrac l.frac ++ renderExp l.exp).length := by
+  cases hf : l.frac with
+  | none =>
+    simp only [renderFrac, List.nil_append]
+    exact cn_exp false l.exp rest (lit_exp_wf h) hr
+  | some fs =>
+    have hfs : ∀ d ∈ fs, d < 10 := by
+      intro d hd; apply h.2.1; simp [fracDigits, hf, hd]
+    simp only [renderFrac, List.cons_append, List.length_cons, List.length_append, List.length_map]
+    rw [countNumber.eq_def]
+    have c1 : isDigit '.' = false := by decide
+    simp only [c1, Bool.false_eq_true, ↓reduceIte, beq_self_eq_true, Bool.not_false, Bool.and_self]
+    rw [List.append_assoc, cn_digits fs hfs, cn_exp true l.exp rest (lit_exp_wf h) hr]
+    omega
+
+theorem cn_body (l : Literal) (h : l.WF) (rest : List Char) (hr : NumStop rest) :
+    countNumber false (body l ++ rest) = (body l).length := by
+  simp only [body, List.append_assoc, List.length_append, List.length_map]
+  rw [cn_digits l.int h.1, ← List.append_assoc, cn_fracexp l h rest hr, List.length_append]
+
+theorem body_ne_nil (l : Literal) (h : l.WF) : body l ≠ [] := by
+  intro hb
+  simp only [body, List.append_eq_nil_iff, List.map_eq_nil_iff] at hb
+  obtain ⟨h1, h2, _⟩ := hb
+  rcases h.2.2.1 with h3 | h3
+  · exact h3 h1
+  · cases hf : l.frac with
+    | none => simp [fracDigits, hf] at h3
+    | some fs => simp [renderFrac, hf] at h2
+
+/-! ### One token at a time -/
+
+/-- Outcomes of the character tests of `nextNormal`, in order. -/
+def tests (c : Char) : List Bool :=
+  [isWhitespace c, c == '{', c == '.', c == ',', isDigit c, c == '*', c == '/', c == '+', c == '-',
+   c == '^', c == '%', c == '(', c == ')']
+
+macro "nn_neg" h:ident : tactic =>
+  `(tactic| rw [if_neg (by rw [$h:ident]; exact Bool.false_ne_true)])
+macro "nn_pos" h:ident : tactic => `(tactic| rw [if_pos $h:ident])
+
+theorem nn_ws (c : Char) (r : List Char) (h : isWhitespace c = true) :
+    nextNormal c r = (.WHITESPACE, 1 + countWhile isWhitespace r, false) := by
+  unfold nextNormal; nn_pos h
+
+theorem nn_dot (c : Char) (r : List Char) (h : tests c = [false, false, true, false, false, false,
+    false, false, false, false, false, false, false]) (hn : countNumber true r ≠ 0) :
+    nextNormal c r = (.NUMBER, 1 + countNumber true r, false) := by
+  simp only [tests, List.cons.injEq, and_true] at h
+  obtain ⟨h1, h2, h3, h4, h5, h6, h7, h8, h9, h10, h11, h12, h13⟩ := h
+  unfold nextNormal
+  nn_neg h1; nn_neg h2; nn_pos h3
+  simp only [beq_iff_eq, hn, ↓reduceIte]
+
+theorem nn_comma (c : Char) (r : List Char) (h : tests c = [false, false, false, true, false, false,
+    false, false, false, false, false, false, false]) : nextNormal c r = (.COMMA, 1, false) := by
+  simp only [tests, List.cons.injEq, and_true] at h
+  obtain ⟨h1, h2, h3, h4, h5, h6, h7, h8, h9, h10, h11, h12, h13⟩ := h
+  unfold nextNormal
+  nn_neg h1; nn_neg h2; nn_neg h3; nn_pos h4
+
+theorem nn_digit (c : Char) (r : List Char) (h : tests c = [false, false, false, false, true, false,
+    false, false, false, false, false, false, false]) :
+    nextNormal c r = (.NUMBER, countNumber false (c :: r), false) := by
+  simp only [tests, List.cons.injEq, and_true] at h
+  obtain ⟨h1, h2, h3, h4, h5, h6, h7, h8, h9, h10, h11, h12, h13⟩ := h
+  unfold nextNormal
+  nn_neg h1; nn_neg h2; nn_neg h3; nn_neg h4; nn_pos h5
+
+theorem nn_star (c : Char) (r : List Char) (h : tests c = [false, false, false, false, false, true,
+    false, false, false, false, false, false, false]) (hr : ∀ r', r ≠ '*' :: r') :
+    nextNormal c r = (.STAR, 1, false) := by
+  simp only [tests, List.cons.injEq, and_true] at h
+  obtain ⟨h1, h2, h3, h4, h5, h6, h7, h8, h9, h10, h11, h12, h13⟩ := h
+  unfold nextNormal
+  nn_neg h1; nn_neg h2; nn_neg h3; nn_neg h4; nn_neg h5; nn_pos h6
+  split
+  · exact absurd rfl (hr _)
+  · rfl
+
+theorem nn_slash (c : Char) (r : List Char) (h : tests c = [false, false, false, false, false, false,
+    true, false, false, false, false, false, false]) : nextNormal c r = (.SLASH, 1, false) := by
+  simp only [tests, List.cons.injEq, and_true] at h
+  obtain ⟨h1, h2, h3, h4, h5, h6, h7, h8, h9, h10, h11, h12, h13⟩ := h
+  unfold nextNormal
+  nn_neg h1; nn_neg h2; nn_neg h3; nn_neg h4; nn_neg h5; nn_neg h6; nn_pos h7
+
+theorem nn_plus (c : Char) (r : List Char) (h : tests c = [false, false, false, false, false, false,
+    false, true, false, false, false, false, false]) :
+    nextNormal c r = if countNumber false r > 0 then (.NUMBER, 1 + countNumber false r, false)
+      else (.PLUS, 1, false) := by
+  simp only [tests, List.cons.injEq, and_true] at h
+  obtain ⟨h1, h2, h3, h4, h5, h6, h7, h8, h9, h10, h11, h12, h13⟩ := h
+  unfold nextNormal
+  nn_neg h1; nn_neg h2; nn_neg h3; nn_neg h4; nn_neg h5; nn_neg h6; nn_neg h7; nn_pos h8
+
+theorem nn_dash (c : Char) (r : List Char) (h : tests c = [false, false, false, false, false, false,
+    false, false, true, false, false, false, false]) :
+    nextNormal c r = if countNumber false r > 0 then (.NUMBER, 1 + countNumber false r, false)
+      else (.DASH, 1, false) := by
+  simp only [tests, List.cons.injEq, and_true] at h
+  obtain ⟨h1, h2, h3, h4, h5, h6, h7, h8, h9, h10, h11, h12, h13⟩ := h
+  unfold nextNormal
+  nn_neg h1; nn_neg h2; nn_neg h3; nn_neg h4; nn_neg h5; nn_neg h6; nn_neg h7; nn_neg h8; nn_pos h9
+
+theorem nn_caret (c : Char) (r : List Char) (h : tests c = [false, false, false, false, false, false,
+    false, false, false, true, false, false, false]) : nextNormal c r = (.CARET, 1, false) := by
+  simp only [tests, List.cons.injEq, and_true] at h
+  obtain ⟨h1, h2, h3, h4, h5, h6, h7, h8, h9, h10, h11, h12, h13⟩ := h
+  unfold nextNormal
+  nn_neg h1; nn_neg h2; nn_neg h3; nn_neg h4; nn_neg h5; nn_neg h6; nn_neg h7; nn_neg h8; nn_neg h9
+  nn_pos h10
+
+theorem nn_pct (c : Char) (r : List Char) (h : tests c = [false, false, false, false, false, false,
+    false, false, false, false, true, false, false]) : nextNormal c r = (.PERCENTAGE, 1, false) := by
+  simp only [tests, List.cons.injEq, and_true] at h
+  obtain ⟨h1, h2, h3, h4, h5, h6, h7, h8, h9, h10, h11, h12, h13⟩ := h
+  unfold nextNormal
+  nn_neg h1; nn_neg h2; nn_neg h3; nn_neg h4; nn_neg h5; nn_neg h6; nn_neg h7; nn_neg h8; nn_neg h9
+  nn_neg h10; nn_pos h11
+
+theorem nn_open (c : Char) (r : List Char) (h : tests c = [false, false, false, false, false, false,
+    false, false, false, false, false, true, false]) : nextNormal c r = (.OPEN_PAREN, 1, false) := by
+  simp only [tests, List.cons.injEq, and_true] at h
+  obtain ⟨h1, h2, h3, h4, h5, h6, h7, h8, h9, h10, h11, h12, h13⟩ := h
+  unfold nextNormal
+  nn_neg h1; nn_neg h2; nn_neg h3; nn_neg h4; nn_neg h5; nn_neg h6; nn_neg h7; nn_neg h8; nn_neg h9
+  nn_neg h10; nn_neg h11; nn_pos h12
+
+theorem nn_close (c : Char) (r : List Char) (h : tests c = [false, false, false, false, false, false,
+    false, false, false, false, false, false, true]) : nextNormal c r = (.CLOSE_PAREN, 1, false) := by
+  simp only [tests, List.cons.injEq, and_true] at h
+  obtain ⟨h1, h2, h3, h4, h5, h6, h7, h8, h9, h10, h11, h12, h13⟩ := h
+  unfold nextNormal
+  nn_neg h1; nn_neg h2; nn_neg h3; nn_neg h4; nn_neg h5; nn_neg h6; nn_neg h7; nn_neg h8; nn_neg h9
+  nn_neg h10; nn_neg h11; nn_neg h12; nn_pos h13
+
+theorem nn_word (c : Char) (r : List Char) (h : tests c = [false, false, false, false, false, false,
+    false, false, false, false, false, false, false])
+    (hn : countWhile isWordChar (c :: r) > 0)
+    (hto : ((c :: r).take (countWhile isWordChar (c :: r)) == ['t', 'o']) = false) :
+    nextNormal c r = (.WORD, countWhile isWordChar (c :: r), false) := by
+  simp only [tests, List.cons.injEq, and_true] at h
+  obtain ⟨h1, h2, h3, h4, h5, h6, h7, h8, h9, h10, h11, h12, h13⟩ := h
+  unfold nextNormal
+  nn_neg h1; nn_neg h2; nn_neg h3; nn_neg h4; nn_neg h5; nn_neg h6; nn_neg h7; nn_neg h8; nn_neg h9
+  nn_neg h10; nn_neg h11; nn_neg h12; nn_neg h13
+  simp only [hn, ↓reduceIte, hto, Bool.false_eq_true]
+
+/-! ### Token streams -/
+
+/-- The lexer turns `s` into `ts` (with any sufficient fuel, in normal mode). -/
+def Lexes (s : List Char) (ts : List Token) : Prop :=
+  ∀ fuel, s.length ≤ fuel → lexFuel fuel false s = ts
+
+theorem lexes_nil : Lexes [] [] := by
+  intro fuel _
+  cases fuel <;> rfl
+
+theorem lexes_lex {s : List Char} {ts : List Token} (h : Lexes s ts) : lex s = ts :=
+  h _ (Nat.le_refl _)
+
+/-- One token: `nextNormal` on the first character gives kind `k` and the length of `text`. -/
+theorem lexes_cons {c : Char} {r text rest : List Char} {k : Syntax} {ts : List Token}
+    (hsplit : text ++ rest = c :: r) (hne : text ≠ [])
+    (hn : nextNormal c r = (k, text.length, false))
+    (h : Lexes rest ts) : Lexes (text ++ rest) (⟨k, text⟩ :: ts) := by
+  intro fuel hf
+  have hpos : 0 < text.length := List.length_pos_of_ne_nil hne
+  obtain ⟨fuel', rfl⟩ : ∃ f, fuel = f + 1 := ⟨fuel - 1, by simp at hf; omega⟩
+  have hstep : step false (text ++ rest) = some (⟨k, text⟩, rest, false) := by
+    rw [hsplit]
+    simp only [step, nextTok, Bool.false_eq_true, ↓reduceIte, hn]
+    rw [← hsplit, List.take_left', List.drop_left'] <;> rfl
+  simp only [lexFuel, hstep]
+  rw [h fuel' (by simp at hf; omega)]
+
+/-! ### Heads of character lists -/
+
+/-- Every possible first character satisfies `P` (vacuous for the empty list). -/
+def Head (P : Char → Prop) (s : List Char) : Prop := ∀ c r, s = c :: r → P c
+
+theorem head_nil (P : Char → Prop) : Head P [] := fun _ _ h => by cases h
+
+theorem head_cons {P : Char → Prop} {c : Char} {r : List Char} (h : P c) : Head P (c :: r) :=
+  fun c' _ h' => by cases h'; exact h
+
+theorem head_mono {P Q : Char → Prop} {s : List Char} (h : Head P s) (hpq : ∀ c, P c → Q c) :
+    Head Q s := fun c r hs => hpq c (h c r hs)
+
+theorem head_append {P : Char → Prop} {a b : List Char} (ha : ∀ c ∈ a, P c) (hb : Head P b) :
+    Head P (a ++ b) := by
+  cases a with
+  | nil => simpa using hb
+  | cons c a' => exact head_cons (ha c (by simp))
+
+/-- First characters of an operand. -/
+def operandStarts : List Char :=
+  ['0', '1', '2', '3', '4', '5', '6', '7', '8', '9', '.', '+', '-', '(', 'r', 'f', 'c']
+/-- First characters of an operand that does not begin with an unsigned literal. -/
+def signedStarts : List Char := ['+', '-', '(', 'r', 'f', 'c']
+/-- Characters that may follow an expression. -/
+def stops : List Char := ['+', '-', '*', '/', '^', ')', ',']
+
+def ExprStop (s : List Char) : Prop := Head (fun c => isWhitespace c = true ∨ c ∈ stops) s
+def NoWS (s : List Char) : Prop := Head (fun c => isWhitespace c = false) s
+
+theorem ws_not_num {c : Char} (h : isWhitespace c = true) :
+    isDigit c = false ∧ c ≠ '.' ∧ c ≠ 'e' ∧ c ≠ 'E' ∧ c ≠ '*' ∧ c ≠ '%' := by
+  refine ⟨?_, ?_, ?_, ?_, ?_, ?_⟩
+  · cases hd : isDigit c with
+    | false => rfl
+    | true =>
+      exfalso
+      have h0 : '0'.toNat = 48 := by decide
+      have h9 : '9'.toNat = 57 := by decide
+      simp only [isDigit, h0, h9, Bool.and_eq_true, decide_eq_true_eq] at hd
+      simp only [isWhitespace, Bool.or_eq_true, Bool.and_eq_true, decide_eq_true_eq,
+        beq_iff_eq] at h
+      omega
+  all_goals (intro hc; subst hc; revert h; decide)
+
+theorem exprStop_numStop {s : List Char} (h : ExprStop s) : NumStop s := by
+  intro c r hs
+  rcases h c r hs with hw | hm
+  · obtain ⟨a, b, c', d, _⟩ := ws_not_num hw
+    exact ⟨a, b, c', d⟩
+  · have : ∀ c ∈ stops, isDigit c = false ∧ c ≠ '.' ∧ c ≠ 'e' ∧ c ≠ 'E' := by decide
+    exact this c hm
+
+theorem exprStop_blank {b s : List Char} (hb : Blank b) (hs : ExprStop s) : ExprStop (b ++ s) :=
+  head_append (fun c hc => Or.inl (hb c hc)) hs
+
+theorem operandStart_facts : ∀ c ∈ operandStarts, isWhitespace c = false ∧ c ≠ '*' := by decide
+
+theorem signedStart_facts : ∀ c ∈ signedStarts,
+    isDigit c = false ∧ c ≠ '.' ∧ c ≠ 'e' ∧ c ≠ 'E' := by decide
+
+theorem stops_noWS : ∀ c ∈ stops, isWhitespace c = false := by decide
+
+theorem digitChar_mem {d : Nat} (h : d < 10) : digitChar d ∈ operandStarts := by
+  have : ∀ d : Fin 10, digitChar d.val ∈ operandStarts := by decide
+  exact this ⟨d, h⟩
+
+theorem signed_sub : ∀ c ∈ signedStarts, c ∈ operandStarts := by decide
+
+/-- The first character of a rendered expression. -/
+theorem render_head : ∀ (e : NExpr) (ws : Layout), LayoutOK e ws →
+    ∃ c r, (Arith.render e ws).1 = c :: r ∧ c ∈ operandStarts ∧
+      (startsUnsigned e = false → c ∈ signedStarts)
+  | .lit l, ws, h => by
+    have hwf : l.WF := h.1
+    have hnum : ∃ c r, renderNumber l = c :: r ∧ c ∈ operandStarts ∧
+        (l.sign.isNone = false → c ∈ signedStarts) := by
+      rw [renderNumber_eq]
+      cases hs : l.sign with
+      | some sg => cases sg <;> exact ⟨_, _, rfl, by decide, fun _ => by decide⟩
+      | none =>
+        simp only [renderSign, List.nil_append, Option.isNone_none, reduceCtorEq, false_implies,
+          and_true]
+        cases hi : l.int with
+        | cons d ds =>
+          have : d < 10 := hwf.1 d (by simp [hi])
+          exact ⟨digitChar d, List.map digitChar ds ++ (renderFrac l.frac ++ renderExp l.exp),
+            by simp [body, hi], digitChar_mem this⟩
+        | nil =>
+          cases hf : l.frac with
+          | none =>
+            have := hwf.2.2.1
+            simp [hi, fracDigits, hf] at this
+          | some fs => exact ⟨'.', List.map digitChar fs ++ renderExp l.exp,
+              by simp [body, hi, hf, renderFrac], by decide⟩
+    obtain ⟨c, r, hr, hc, hsg⟩ := hnum
+    rw [render_lit]
+    split
+    · exact ⟨c, r ++ (blank1 ws ++ ['%']), by simp [hr], hc, hsg⟩
+    · exact ⟨c, r, hr, hc, hsg⟩
+  | .bin op a b, ws, h => by
+    obtain ⟨c, r, hr, hc, hsg⟩ := render_head a ws h.1
+    rw [render_bin]
+    exact ⟨c, _, by simp only [hr, List.cons_append]; rfl, hc, hsg⟩
+  | .paren e, ws, _ => by
+    rw [render_paren]
+    exact ⟨'(', _, by simp only [List.cons_append, List.nil_append]; rfl, by decide,
+      fun _ => by decide⟩
+  | .call f args, ws, _ => by
+    rw [render_call]
+    cases f <;> exact ⟨_, _, by simp only [Fn.name, List.cons_append]; rfl, by decide,
+      fun _ => by decide⟩
+
+/-! ### Lexing one token of a rendering -/
+
+theorem cw_ws (b rest : List Char) (hb : Blank b) (hr : NoWS rest) :
+    countWhile isWhitespace (b ++ rest) = b.length := by
+  induction b with
+  | nil =>
+    cases rest with
+    | nil => rfl
+    | cons c r => simp [countWhile, hr c r rfl]
+  | cons c b ih =>
+    simp only [List.cons_append, countWhile, hb c (by simp), ↓reduceIte, List.length_cons]
+    rw [ih (fun x hx => hb x (by simp [hx]))]
+    omega
+
+theorem lex_blank {b rest : List Char} {ts : List Token} (hb : Blank b) (hr : NoWS rest)
+    (h : Lexes rest ts) : Lexes (b ++ rest) (blankTok b ++ ts) := by
+  cases b with
+  | nil => simpa [blankTok] using h
+  | cons c b' =>
+    simp only [blankTok, reduceCtorEq, ↓reduceIte, List.singleton_append]
+    refine lexes_cons (c := c) (r := b' ++ rest) rfl (by simp) ?_ h
+    rw [nn_ws c _ (hb c (by simp)), cw_ws b' rest (fun x hx => hb x (by simp [hx])) hr]
+    simp [Nat.add_comm]
+
+theorem digit_tests {d : Nat} (h : d < 10) : tests (digitChar d) =
+    [false, false, false, false, true, false, false, false, false, false, false, false, false] := by
+  have : ∀ d : Fin 10, tests (digitChar d.val) =
+    [false, false, false, false, true, false, false, false, false, false, false, false, false] := by
+    decide
+  exact this ⟨d, h⟩
+
+theorem lex_number {l : Literal} {rest : List Char} {ts : List Token} (hwf : l.WF)
+    (hr : NumStop rest) (h : Lexes rest ts) :
+    Lexes (renderNumber l ++ rest) (⟨.NUMBER, renderNumber l⟩ :: ts) := by
+  have hb := cn_body l hwf rest hr
+  have hne := body_ne_nil l hwf
+  cases hs : l.sign with
+  | some sg =>
+    have hpos : countNumber false (body l ++ rest) > 0 := by
+      rw [hb]; exact List.length_pos_of_ne_nil hne
+    cases sg with
+    | plus =>
+      refine lexes_cons (c := '+') (r := body l ++ rest)
+        (by simp [renderNumber_eq, hs, renderSign]) (by simp [renderNumber_eq, hs, renderSign]) ?_ h
+      rw [nn_plus _ _ (by decide), if_pos hpos, hb]
+      simp [renderNumber_eq, hs, renderSign, Nat.add_comm]
+    | minus =>
+      refine lexes_cons (c := '-') (r := body l ++ rest)
+        (by simp [renderNumber_eq, hs, renderSign]) (by simp [renderNumber_eq, hs, renderSign]) ?_ h
+      rw [nn_dash _ _ (by decide), if_pos hpos, hb]
+      simp [renderNumber_eq, hs, renderSign, Nat.add_comm]
+  | none =>
+    have hrn : renderNumber l = body l := by simp [renderNumber_eq, hs, renderSign]
+    rw [hrn]
+    cases hi : l.int with
+    | cons d ds =>
+      have hd : d < 10 := hwf.1 d (by simp [hi])
+      have hbody : body l = digitChar d :: (ds.map digitChar ++ (renderFrac l.frac ++ renderExp l.exp)) := by
+        simp [body, hi]
+      refine lexes_cons (c := digitChar d)
+        (r := (ds.map digitChar ++ (renderFrac l.frac ++ renderExp l.exp)) ++ rest)
+        (by rw [hbody]; rfl) hne ?_ h
+      rw [nn_digit _ _ (digit_tests hd), ← List.cons_append, ← hbody, hb]
+    | nil =>
+      cases hf : l.frac with
+      | none =>
+        have := hwf.2.2.1
+        simp [hi, fracDigits, hf] at this
+      | some fs =>
+        have hfs : ∀ d ∈ fs, d < 10 := by
+          intro d hd; apply hwf.2.1; simp [fracDigits, hf, hd]
+        have hfne : fs ≠ [] := by
+          have := hwf.2.2.1
+          simpa [hi, fracDigits, hf] using this
+        have hbody : body l = '.' :: (fs.map digitChar ++ renderExp l.exp) := by
+          simp [body, hi, hf, renderFrac]
+        have hcn : countNumber true ((fs.map digitChar ++ renderExp l.exp) ++ rest) =
+            (fs.map digitChar ++ renderExp l.exp).length := by
+          rw [List.append_assoc, cn_digits fs hfs, cn_exp true l.exp rest (lit_exp_wf hwf) hr]
+          simp
+        refine lexes_cons (c := '.') (r := (fs.map digitChar ++ renderExp l.exp) ++ rest)
+          (by rw [hbody]; rfl) hne ?_ h
+        rw [nn_dot _ _ (by decide) (by
+          rw [hcn]
+          have := List.length_pos_of_ne_nil hfne
+          simp only [List.length_append, List.length_map]; omega), hcn, hbody]
+        simp [Nat.add_comm]
+
+theorem lex_op {op : BinOp} {rest : List Char} {ts : List Token}
+    (h1 : Head (fun c => c ≠ '*') rest) (h2 : (op = .add ∨ op = .sub) → NumStop rest)
+    (h : Lexes rest ts) : Lexes (op.sym ++ rest) (opTok op :: ts) := by
+  cases op with
+  | add =>
+    refine lexes_cons (c := '+') (r := rest) rfl (by simp [BinOp.sym]) ?_ h
+    rw [nn_plus _ _ (by decide), cn_stop false rest (h2 (Or.inl rfl))]; rfl
+  | sub =>
+    refine lexes_cons (c := '-') (r := rest) rfl (by simp [BinOp.sym]) ?_ h
+    rw [nn_dash _ _ (by decide), cn_stop false rest (h2 (Or.inr rfl))]; rfl
+  | mul =>
+    refine lexes_cons (c := '*') (r := rest) rfl (by simp [BinOp.sym]) ?_ h
+    rw [nn_star _ _ (by decide) (fun r' hr => h1 '*' r' hr rfl)]; rfl
+  | div =>
+    refine lexes_cons (c := '/') (r := rest) rfl (by simp [BinOp.sym]) ?_ h
+    rw [nn_slash _ _ (by decide)]; rfl
+  | pow =>
+    refine lexes_cons (c := '^') (r := rest) rfl (by simp [BinOp.sym]) ?_ h
+    rw [nn_caret _ _ (by decide)]; rfl
+
+theorem lex_open {rest : List Char} {ts : List Token} (h : Lexes rest ts) :
+    Lexes (['('] ++ rest) (⟨.OPEN_PAREN, ['(']⟩ :: ts) :=
+  lexes_cons (c := '(') (r := rest) rfl (by simp) (by rw [nn_open _ _ (by decide)]; rfl) h
+
+theorem lex_close {rest : List Char} {ts : List Token} (h : Lexes rest ts) :
+    Lexes ([')'] ++ rest) (⟨.CLOSE_PAREN, [')']⟩ :: ts) :=
+  lexes_cons (c := ')') (r := rest) rfl (by simp) (by rw [nn_close _ _ (by decide)]; rfl) h
+
+theorem lex_comma {rest : List Char} {ts : List Token} (h : Lexes rest ts) :
+    Lexes ([','] ++ rest) (⟨.COMMA, [',']⟩ :: ts) :=
+  lexes_cons (c := ',') (r := rest) rfl (by simp) (by rw [nn_comma _ _ (by decide)]; rfl) h
+
+theorem lex_pct {rest : List Char} {ts : List Token} (h : Lexes rest ts) :
+    Lexes (['%'] ++ rest) (⟨.PERCENTAGE, ['%']⟩ :: ts) :=
+  lexes_cons (c := '%') (r := rest) rfl (by simp) (by rw [nn_pct _ _ (by decide)]; rfl) h
+
+theorem cw_word (name : List Char) (x : Char) (r : List Char)
+    (hn : ∀ c ∈ name, isWordChar c = true) (hx : isWordChar x = false) :
+    countWhile isWordChar (name ++ x :: r) = name.length := by
+  induction name with
+  | nil => simp [countWhile, hx]
+  | cons c name ih =>
+    simp only [List.cons_append, countWhile, hn c (by simp), ↓reduceIte, List.length_cons]
+    rw [ih (fun y hy => hn y (by simp [hy]))]
+    omega
+
+theorem lex_word {f : Fn} {rest : List Char} {ts : List Token} (h : Lexes ('(' :: rest) ts) :
+    Lexes (f.name ++ '(' :: rest) (⟨.WORD, f.name⟩ :: ts) := by
+  have hw : ∀ c ∈ f.name, isWordChar c = true := by cases f <;> decide
+  have hcw := cw_word f.name '(' rest hw (by decide)
+  obtain ⟨c, r, hcr, ht⟩ : ∃ c r, f.name = c :: r ∧ tests c =
+      [false, false, false, false, false, false, false, false, false, false, false, false, false] := by
+    cases f <;> exact ⟨_, _, rfl, by decide⟩
+  have hsplit : f.name ++ '(' :: rest = c :: (r ++ '(' :: rest) := by rw [hcr]; rfl
+  refine lexes_cons (c := c) (r := r ++ '(' :: rest) hsplit (by rw [hcr]; simp) ?_ h
+  rw [nn_word c (r ++ '(' :: rest) ht (by rw [← hsplit, hcw, hcr]; simp) (by
+    rw [← hsplit, hcw, List.take_left']
+    · cases f <;> decide
+    · rfl), ← hsplit, hcw]
+
+/-! ### Lexing a rendered expression -/
+
+theorem sym_stop (op : BinOp) (r : List Char) : ExprStop (op.sym ++ r) := by
+  cases op <;> exact head_cons (Or.inr (by decide))
+
+theorem sym_noWS (op : BinOp) (r : List Char) : NoWS (op.sym ++ r) := by
+  cases op <;> exact head_cons (by decide)
+
+theorem noWS_of_start {s r : List Char} {c : Char} (hs : s = c :: r) (hc : c ∈ operandStarts)
+    (rest : List Char) : NoWS (s ++ rest) := by
+  rw [hs]; exact head_cons (operandStart_facts c hc).1
+
+/-- What may follow a binary operator: a blank and then an operand. -/
+theorem after_op {b2 sb r rest : List Char} {c : Char} (hb : Blank b2) (hs : sb = c :: r)
+    (hc : c ∈ operandStarts) :
+    Head (fun c => c ≠ '*') (b2 ++ (sb ++ rest)) ∧
+    ((b2 = [] → c ∈ signedStarts) → NumStop (b2 ++ (sb ++ rest))) := by
+  constructor
+  · refine head_append (fun x hx => (ws_not_num (hb x hx)).2.2.2.2.1) ?_
+    rw [hs]; exact head_cons (operandStart_facts c hc).2
+  · intro hsg
+    cases b2 with
+    | nil =>
+      rw [hs]
+      exact head_cons (signedStart_facts c (hsg rfl))
+    | cons x b2' =>
+      obtain ⟨a1, a2, a3, a4, _⟩ := ws_not_num (hb x (by simp))
+      exact head_cons ⟨a1, a2, a3, a4⟩
+
+mutual
+theorem lex_e : ∀ (e : NExpr) (ws : Layout) (rest : List Char) (ts : List Token),
+    LayoutOK e ws → ExprStop rest → Lexes rest ts →
+    Lexes ((Arith.render e ws).1 ++ rest) (toks e ws ++ ts)
+  | .lit l, ws, rest, ts, hl, hs, h => by
+    rw [render_lit]
+    simp only [toks]
+    by_cases hp : l.percent = true
+    · simp only [hp, ↓reduceIte, List.append_assoc, List.cons_append, List.nil_append]
+      have hb := hl.2 hp
+      refine lex_number hl.1 ?_ (lex_blank hb (head_cons (by decide)) (lex_pct h))
+      intro c r hcr
+      cases hbl : blank1 ws with
+      | nil =>
+        rw [hbl] at hcr
+        simp only [List.nil_append, List.cons.injEq] at hcr
+        rw [← hcr.1]; decide
+      | cons x b' =>
+        rw [hbl] at hcr
+        simp only [List.cons_append, List.cons.injEq] at hcr
+        obtain ⟨a1, a2, a3, a4, _⟩ := ws_not_num (hb x (by simp [hbl]))
+        rw [← hcr.1]; exact ⟨a1, a2, a3, a4⟩
+    · have hp' : l.percent = false := by simpa using hp
+      simp only [hp', Bool.false_eq_true, ↓reduceIte, List.cons_append, List.nil_append]
+      exact lex_number hl.1 (exprStop_numStop hs) h
+  | .bin op a b, ws, rest, ts, hl, hs, h => by
+    obtain ⟨ha, hb1, hb2, hb, hsg⟩ := hl
+    obtain ⟨c, r, hcr, hc, hcs⟩ := render_head b _ hb
+    rw [render_bin]
+    simp only [toks, List.append_assoc]
+    obtain ⟨ao1, ao2⟩ := after_op (rest := rest) hb2 hcr hc
+    refine lex_e a ws _ _ ha (exprStop_blank hb1 (sym_stop op _))
+      (lex_blank hb1 (sym_noWS op _) (lex_op ao1 (fun hop => ao2 fun hnil => hcs (hsg hop hnil))
+        (lex_blank hb2 (noWS_of_start hcr hc rest) (lex_e b _ rest ts hb hs h))))
+  | .paren e, ws, rest, ts, hl, hs, h => by
+    obtain ⟨hb1, he, hb2⟩ := hl
+    obtain ⟨c, r, hcr, hc, _⟩ := render_head e _ he
+    rw [render_paren]
+    simp only [toks, List.append_assoc]
+    exact lex_open (lex_blank hb1 (noWS_of_start hcr hc _)
+      (lex_e e _ _ _ he (exprStop_blank hb2 (head_cons (Or.inr (by decide))))
+        (lex_blank hb2 (head_cons (by decide)) (lex_close h))))
+  | .call f args, ws, rest, ts, hl, hs, h => by
+    obtain ⟨hb1, hargs, hb2⟩ := hl
+    rw [render_call]
+    simp only [toks, List.append_assoc, List.cons_append, List.nil_append]
+    refine lex_word (lex_open ?_)
+    match args, hargs, hb2 with
+    | [], _, hb2 =>
+      simp only [renderArgs_nil, List.nil_append]
+      have hbb : Blank (blank1 ws ++ blank1 (rest1 ws)) := by
+        intro c hc
+        rcases List.mem_append.mp hc with hc | hc
+        · exact hb1 c hc
+        · simp only [afterArgs, renderArgs_nil] at hb2
+          exact hb2 c hc
+      simp only [afterArgs, renderArgs_nil]
+      have := lex_blank hbb (head_cons (by decide)) (lex_close h)
+      simpa [List.append_assoc] using this
+    | e :: es, hargs, hb2 =>
+      have hhead : NoWS ((renderArgs (e :: es) (rest1 ws)).1 ++
+          (blank1 (afterArgs (e :: es) (rest1 ws)) ++ ([')'] ++ rest))) := by
+        cases es with
+        | nil =>
+          obtain ⟨c, r, hcr, hc, _⟩ := render_head e _ hargs
+          rw [renderArgs_one]; exact noWS_of_start hcr hc _
+        | cons e' es' =>
+          obtain ⟨c, r, hcr, hc, _⟩ := render_head e _ hargs.1
+          rw [renderArgs_cons]
+          simp only [List.append_assoc]
+          exact noWS_of_start hcr hc _
+      simp only [List.append_assoc]
+      exact lex_blank hb1 hhead (lex_args (e :: es) _ _ _ hargs
+        (exprStop_blank hb2 (head_cons (Or.inr (by decide))))
+        (lex_blank hb2 (head_cons (by decide)) (lex_close h)))
+theorem lex_args : ∀ (es : List NExpr) (ws : Layout) (rest : List Char) (ts : List Token),
+    LayoutOKArgs es ws → ExprStop rest → Lexes rest ts →
+    Lexes ((renderArgs es ws).1 ++ rest) (toksArgs es ws ++ ts)
+  | [], ws, rest, ts, _, _, h => by
+    simpa [renderArgs_nil, toksArgs] using h
+  | [e], ws, rest, ts, hl, hs, h => by
+    rw [renderArgs_one]
+    simp only [toksArgs]
+    exact lex_e e ws rest ts hl hs h
+  | e :: e' :: es, ws, rest, ts, hl, hs, h => by
+    obtain ⟨he, hb1, hb2, hrest⟩ := hl
+    have hhead : NoWS ((renderArgs (e' :: es) (rest1 (rest1 (after e ws)))).1 ++ rest) := by
+      cases es with
+      | nil =>
+        obtain ⟨c, r, hcr, hc, _⟩ := render_head e' _ hrest
+        rw [renderArgs_one]; exact noWS_of_start hcr hc _
+      | cons e'' es' =>
+        obtain ⟨c, r, hcr, hc, _⟩ := render_head e' _ hrest.1
+        rw [renderArgs_cons]
+        simp only [List.append_assoc]
+        exact noWS_of_start hcr hc _
+    rw [renderArgs_cons]
+    simp only [toksArgs, List.append_assoc]
+    exact lex_e e ws _ _ he (exprStop_blank hb1 (head_cons (Or.inr (by decide))))
+      (lex_blank hb1 (head_cons (by decide)) (lex_comma (lex_blank hb2 hhead
+        (lex_args (e' :: es) _ rest ts hrest hs h))))
+end
+
+/-- The lexer on a rendered query. -/
+theorem lex_query (e : NExpr) (ws : Layout) (h : QueryLayoutOK e ws) :
+    lex (renderQuery e ws) = queryToks e ws := by
+  obtain ⟨hb0, he, hb1⟩ := h
+  obtain ⟨c, r, hcr, hc, _⟩ := render_head e _ he
+  apply lexes_lex
+  have : renderQuery e ws = blank1 ws ++ ((Arith.render e (rest1 ws)).1 ++
+      (blank1 (after e (rest1 ws)) ++ [])) := by
+    simp [renderQuery]
+  rw [this]
+  have h2 : queryToks e ws = blankTok (blank1 ws) ++ (toks e (rest1 ws) ++
+      (blankTok (blank1 (after e (rest1 ws))) ++ [])) := by
+    simp [queryToks]
+  rw [h2]
+  exact lex_blank hb0 (noWS_of_start hcr hc _)
+    (lex_e e _ _ _ he (exprStop_blank hb1 (head_nil _)) (lex_blank hb1 (head_nil _) lexes_nil))
+
+/-! ### `Lexes` is what `lex` computes -/
+
+theorem lexFuel_irrelevant : ∀ (f1 f2 : Nat) (e : Bool) (s : List Char), s.length ≤ f1 →
+    s.length ≤ f2 → lexFuel f1 e s = lexFuel f2 e s := by
+  intro f1
+  induction f1 with
+  | zero =>
+    intro f2 e s h1 _
+    have : s = [] := List.eq_nil_of_length_eq_zero (by omega)
+    subst this
+    cases f2 <;> rfl
+  | succ n ih =>
+    intro f2 e s h1 h2
+    cases hs : s with
+    | nil => cases f2 <;> rfl
+    | cons c cs =>
+      subst hs
+      obtain ⟨t, rest, e', hstep, _, _, hlt⟩ := Props.C12.C12_progress e (c :: cs) (by simp)
+      obtain ⟨m, rfl⟩ : ∃ m, f2 = m + 1 := ⟨f2 - 1, by simp at h2; omega⟩
+      simp only [lexFuel, hstep]
+      rw [ih m e' rest (by simp at h1 hlt; omega) (by simp at h2 hlt; omega)]
+
+theorem lexes_lex_self (s : List Char) : Lexes s (lex s) := by
+  intro fuel hf
+  exact lexFuel_irrelevant fuel s.length false s hf (Nat.le_refl _)
 
 end Anything.C06
